@@ -847,6 +847,7 @@ impl<'de, R: Read<'de>> Parser<R> {
     fn symbol_token(&self, mut name: String) -> Token {
         if self.options.keyword_syntax(KeywordSyntax::ColonPostfix)
             && name.len() > 1
+            && name != ".:"
             && name.ends_with(':')
         {
             name.pop();
